@@ -865,6 +865,11 @@ func validateV2FileContracts(ms *MidState, txn types.V2Transaction) error {
 			return fmt.Errorf("file contract renewal %v parent (%v) %s", i, fcr.Parent.ID, err)
 		}
 		fc := fcr.Parent.V2FileContract
+		// a revision earlier in this block supersedes the terms (in particular
+		// the keys) carried by the parent element, as in validateRevision
+		if j, ok := ms.elements[fcr.Parent.ID]; ok && j < len(ms.v2fces) && ms.v2fces[j].V2FileContractElement.ID == fcr.Parent.ID && ms.v2fces[j].Revision != nil {
+			fc = *ms.v2fces[j].Revision
+		}
 		switch r := fcr.Resolution.(type) {
 		case *types.V2FileContractRenewal:
 			renewal := *r
